@@ -185,12 +185,25 @@ def rule_pandas(ctx):
                           f"encoding: whether a column is encoded must not depend on the value of some of its cells (a NULL or a string in the "
                           f"first row hands raw dicts to DuckDB)")
     ctx.floor("C01.c encoder paths", n_enc, 2)
-    # dict/list cells are json-encoded
-    dumps = [c for c in ast.walk(fn) if isinstance(c, ast.Call) and norm(c.func) == "json.dumps"]
-    guarded = any(isinstance(p, ast.IfExp) and "isinstance" in norm(p.test) and "dict" in norm(p.test) and "list" in norm(p.test)
-                  and any(d in ast.walk(p.body) for d in dumps) for p in ast.walk(fn))
-    ctx.ob("C01.c", "dict and list cells pass through json.dumps before the insert", bool(dumps) and guarded, m.loc(fn))
-    if not (dumps and guarded):
+    # dict/list cells are json-encoded: the callable applied to the object columns (found through the effect trace, wherever
+    # it is defined) dumps exactly the dict / list cells
+    def encodes(fnode) -> bool:
+        body = fnode.body if isinstance(fnode, ast.Lambda) else fnode
+        dumps = [c for c in ast.walk(body) if isinstance(c, ast.Call) and norm(c.func).endswith("json.dumps")]
+        guarded = any(isinstance(t, (ast.IfExp, ast.If)) and "isinstance" in norm(t.test) and "dict" in norm(t.test) and "list" in norm(t.test)
+                      for t in ast.walk(body))
+        return bool(dumps) and guarded
+
+    applied = []
+    for p in explore(prog, lambda: ExecHooks(None), run, max_paths=32):
+        for e in p.effects:
+            if e[0] == "call" and str(e[1]).endswith((".apply", ".map", ".applymap", ".transform")) and e[2]:
+                node_ = getattr(e[2][0], "node", None)
+                if node_ is not None:
+                    applied.append(node_)
+    ok_enc = bool(applied) and all(encodes(a_) for a_ in applied)
+    ctx.ob("C01.c", "dict and list cells pass through json.dumps before the insert", ok_enc, m.loc(fn), f"{len(applied)} applied callables")
+    if not ok_enc:
         ctx.violation("C01.c", "pandas_tools", "_insert_df", "json encoding of object cells", m.loc(fn),
                       "dict/list cells are not json-encoded before the dataframe is inserted: DuckDB would store them as STRUCT/LIST text, "
                       "not the JSON text Snowflake returns for VARIANT/OBJECT/ARRAY")
